@@ -92,6 +92,10 @@ def run(ctx):
     ctx.tlc("RangeChip", "RangeChip.cfg")
     ctx.tlc("RangeChip", "RangeChip_bug.cfg", expect_violation=True)
     ctx.tlc("GlGadgets", "GlGadgets_c06.cfg", timeout=600)
+    # beyond the listed property: the chip registry and the collected list under concurrent callers (ChipRegistry.tla)
+    ctx.tlc("ChipRegistry", "ChipRegistry.cfg", workers=4)
+    ctx.tlc("ChipRegistry", "ChipRegistry_nolock.cfg", workers=4, expect_violation=True)
+    ctx.absorb(ctx.run_driver("c06", {"part": "registry", "shard": 77}, tag="registry"), "c06")
     for init, inv, want in (("InitRange", "InvRange", "NoError"), ("InitRangeNoRule", "InvRange", "Error"),
                             ("InitComplete", "InvComplete", "NoError"), ("InitBits", "InvBits", "NoError")):
         a = ctx.apalache_check(os.path.join(common.SPEC, "apalache", "LimbRule.tla"), init, inv, name="limb-" + init)
